@@ -4,7 +4,7 @@ from . import lib, asynclib as al, async_checks as ac
 
 
 def run(chk, replay=None):
-    chk.stage_proofs()
+    chk.stage_proofs(kernels=["Runner"])
     n = 6 if chk.tier == "quick" else 30
     variants = {"reset_step": dict(drive="reset_step"), "run": dict(drive="run"), "override": dict(drive="override"),
                 "jit": dict(drive="reset_step", jit=True),
